@@ -21,7 +21,7 @@ type col struct{ name, val string }
 
 func pickS(r *vh.Rand, xs []string) string { return xs[r.Intn(len(xs))] }
 
-var plainFrags = []string{"a", "b", "x y", "''", "\\", "\\\\", "--", "/*", "*/", "$$", "$t$", "\"", "\n", "\t", "é", "__STR_0__", "__IDENT_1__", "STR_", ";", "e", "E", "1", " ", "FROM t", "\\n"}
+var plainFrags = []string{"__IDENT_0__", "__IDENT_0__", "a", "b", "x y", "''", "\\", "\\\\", "--", "/*", "*/", "$$", "$t$", "\"", "\n", "\t", "é", "__STR_0__", "__IDENT_1__", "STR_", ";", "e", "E", "1", " ", "FROM t", "\\n"}
 
 func genPlain(r *vh.Rand) (string, string) {
 	var sb strings.Builder
@@ -35,7 +35,7 @@ func genPlain(r *vh.Rand) (string, string) {
 
 type efrag struct{ src, val string }
 
-var eFrags = []efrag{{"a", "a"}, {"b c", "b c"}, {"''", "'"}, {"\\\\", "\\"}, {"\\'", "'"}, {"\\n", "\n"}, {"\\t", "\t"}, {"\\\"", "\""}, {"\\z", "z"}, {"\\-", "-"},
+var eFrags = []efrag{{"__IDENT_0__", "__IDENT_0__"}, {"it\\'s", "it's"}, {"a", "a"}, {"b c", "b c"}, {"''", "'"}, {"\\\\", "\\"}, {"\\'", "'"}, {"\\n", "\n"}, {"\\t", "\t"}, {"\\\"", "\""}, {"\\z", "z"}, {"\\-", "-"},
 	{"\"", "\""}, {"--", "--"}, {"/*", "/*"}, {"*/", "*/"}, {"$$", "$$"}, {"\n", "\n"}, {"é", "é"}, {"__STR_0__", "__STR_0__"}, {"1", "1"}, {";", ";"}}
 
 func genE(r *vh.Rand) (string, string) {
@@ -54,7 +54,7 @@ func genE(r *vh.Rand) (string, string) {
 }
 
 var dollarTags = []string{"", "", "t", "tag", "_x1", "T", "é", "a_b"}
-var dollarFrags = []string{"a", "b c", "'", "''", "\"", "\\", "$", "$$", "$x$", "--", "/*", "*/", "\n", "é", "__STR_0__", "1", ";", "t", "$t"}
+var dollarFrags = []string{"__IDENT_0__", "__IDENT_1__", "it's", "say \"hi", "a", "b c", "'", "''", "\"", "\\", "$", "$$", "$x$", "--", "/*", "*/", "\n", "é", "__STR_0__", "1", ";", "t", "$t"}
 
 func genDollar(r *vh.Rand) (string, string) {
 	tag := pickS(r, dollarTags)
@@ -166,11 +166,19 @@ func genBlock(r *vh.Rand, depth int) string {
 	return sb.String()
 }
 
+// wsNoComments: when set, genWS emits white space only, so that the first comment of the string is the
+// trailing one (the pre-scan → mask → strip sequence then depends on the pre-scan seeing it).
+var wsNoComments bool
+
 // white space / comments between tokens; always at least one separating byte
 func genWS(r *vh.Rand, toks *[]gtok, last bool) {
 	n := 1 + r.Intn(2)
 	for i := 0; i < n; i++ {
-		switch r.Intn(10) {
+		k := r.Intn(10)
+		if wsNoComments && k >= 6 {
+			k = r.Intn(6)
+		}
+		switch k {
 		case 0, 1, 2, 3:
 			*toks = append(*toks, gtok{'r', " "})
 		case 4:
@@ -194,6 +202,8 @@ func genSelect(r *vh.Rand) ([]gtok, []col) {
 	var toks []gtok
 	var cols []col
 	var pool []string
+	wsNoComments = r.Chance(35)
+	defer func() { wsNoComments = false }()
 	toks = append(toks, gtok{'r', pickS(r, []string{"SELECT", "select", "Select"})})
 	genWS(r, &toks, false)
 	n := 1 + r.Intn(4)
